@@ -26,7 +26,7 @@ SPEC = {
 }
 
 CLAIM = {
-    "text": "Four parts. WIRE: for generated tables every name x {A, AAAA, TXT} is sent over UDP/TCP to a real dnsforward.Server with a logging in-memory upstream, and the reply is compared with the rendering of the product's own filtering result for that query (values and the CNAME record in the answer, upstream never asked for a name the table answers, upstream asked exactly once for the canonical name when a CNAME leaves the table, original question restored, empty NOERROR for matched-without-value). TABLE: Seeded sweep of rewrite tables (1-12 entries over a 20-name tree in two domains: exact and 1-4-label wildcard patterns, A/AAAA values, CNAMEs inside/outside the table, 'A'/'AAAA' and self-reference exceptions, chains, cycles, duplicates, upper-case patterns, and in 30 % of the tables canonical names / exception answers spelled with upper-case letters, incl. whole chains and cycles in capitals) plus the documented examples. Each table is loaded through filtering.New in 3 entry orders and every name x {A, AAAA, TXT|HTTPS} is asked through the exported CheckHost. Asserted: every call returns (20 s watchdog per batch = non-termination), every returned address is a value of an entry matching the final name in the requested family, and outside the unspecified zones the result is one the reference model (DESIGN A.3: CNAME kind first, exact over wildcard, most specific wildcard, exceptions, chain following) accepts; where no entries of equal rank compete the result must not depend on the entry order. A third part (api) builds and mutates the table only through the rewrite admin handlers (add/delete/update, incl. updates that change the kind of the entry) and requires after every operation that the listed table equals the model table, that resolution follows the table as listed, and that a fresh instance built from the listed table answers identically. A fourth part (concurrent, with the race detector) runs lookups from 4 goroutines while a controller changes the table through the same handlers (scripted alternations and random histories); counters of started and finished handler calls bound the tables that can have been in force during a lookup, and its answer must be the answer a fresh instance gives for one of them. All name universes contain names glued to a wildcard's apex without a label boundary (xexample.org for *.example.org) and the apexes themselves, as queries and as CNAME targets; the wire part additionally checks, with its own matcher, that a name no pattern matches is not rewritten and that served addresses belong to lines matching the final name. Every 25th table / API history is one loop-free CNAME chain of 1-40 hops (lengths around 8, 16, 32), with wildcard hops, ending in a value, an exception, outside the table or in a cycle, queried at every distance from its end; the wire part serves such chains too and requires the reply to reach the end of the chain. Every table of the table part and every step of the api part is also restarted the product's own way (WriteDiskConfig, YAML with the struct's tags, filtering.New) and must resolve every probe as before. Address values also come in unusual spellings (IPv4-mapped and IPv4-compatible IPv6, expanded/upper-case IPv6, zero and loopback addresses): an entry's family is that of the literal as written and the value served is that address." " Exploration: held on the cases observed, which the evidence counts.",
+    "text": "Four parts. WIRE: for generated tables every name x {A, AAAA, TXT} is sent over UDP/TCP to a real dnsforward.Server with a logging in-memory upstream, and the reply is compared with the rendering of the product's own filtering result for that query (values and the CNAME record in the answer, upstream never asked for a name the table answers, upstream asked exactly once for the canonical name when a CNAME leaves the table, original question restored, empty NOERROR for matched-without-value). TABLE: Seeded sweep of rewrite tables (1-12 entries over a 20-name tree in two domains: exact and 1-4-label wildcard patterns, A/AAAA values, CNAMEs inside/outside the table, 'A'/'AAAA' and self-reference exceptions, chains, cycles, duplicates, upper-case patterns, and in 30 % of the tables canonical names / exception answers spelled with upper-case letters, incl. whole chains and cycles in capitals) plus the documented examples. Each table is loaded through filtering.New in 3 entry orders and every name x {A, AAAA, TXT|HTTPS} is asked through the exported CheckHost. Asserted: every call returns (20 s watchdog per batch = non-termination), every returned address is a value of an entry matching the final name in the requested family, and outside the unspecified zones the result is one the reference model (DESIGN A.3: CNAME kind first, exact over wildcard, most specific wildcard, exceptions, chain following) accepts; where no entries of equal rank compete the result must not depend on the entry order. A third part (api) builds and mutates the table only through the rewrite admin handlers (add/delete/update, incl. updates that change the kind of the entry) and requires after every operation that the listed table equals the model table, that resolution follows the table as listed, and that a fresh instance built from the listed table answers identically. A fourth part (concurrent, with the race detector) runs lookups from 4 goroutines while a controller changes the table through the same handlers (scripted alternations and random histories); counters of started and finished handler calls bound the tables that can have been in force during a lookup, and its answer must be the answer a fresh instance gives for one of them. All name universes contain names glued to a wildcard's apex without a label boundary (xexample.org for *.example.org) and the apexes themselves, as queries and as CNAME targets; the wire part additionally checks, with its own matcher, that a name no pattern matches is not rewritten and that served addresses belong to lines matching the final name. Every 25th table / API history is one loop-free CNAME chain of 1-40 hops (lengths around 8, 16, 32), with wildcard hops, ending in a value, an exception, outside the table or in a cycle, queried at every distance from its end; the wire part serves such chains too and requires the reply to reach the end of the chain. Every table of the table part and every step of the api part is also restarted the product's own way (WriteDiskConfig, YAML with the struct's tags, filtering.New) and must resolve every probe as before. Address values also come in unusual spellings (IPv4-mapped and IPv4-compatible IPv6, expanded/upper-case IPv6, zero and loopback addresses): an entry's family is that of the literal as written and the value served is that address. A share of the tables, API histories and wire servers runs on a filter that also has a hosts container (built as home does, from generated hosts files in the scratch directory) in which names of the table appear with other addresses and the other family: the answer for a name the table answers must be unchanged." " Exploration: held on the cases observed, which the evidence counts.",
     "note": "Unspecified zones (only termination and soundness asserted, hits counted): CNAME cycles' outcome, CNAME whose target carries an exception, wildcard CNAME pointing into its own pattern, most specific pattern holding only values of the other family. Counted but constrained: several CNAMEs / several values of equal rank (any of them), duplicates (multiplicity). A walk that meets a CNAME answer with upper-case letters, or 'A'/'AAAA' in another spelling, is also an unspecified zone (statement silent on the case of answers; soundness there compares names case-insensitively). The wire level (CNAME record, restored question, upstream contact) is the second part.",
     "technique": "runtime monitor: reference-model oracle over seeded inputs (exported API) with termination watchdog",
 }
